@@ -526,7 +526,13 @@ class C08(Lab):
                 shutil.rmtree(root, ignore_errors=True)
             R.Probe.snapshot = None
             R.Probe.setups = []
+            R.Probe.classes = None
             robot = None
+            e_ = locals().get("err")
+            while e_ is not None:  # a traceback would keep the robot's frames (and the robot) alive
+                e_.__traceback__ = None
+                e_ = e_.__context__
+            err = None
             gc.collect()
 
 
